@@ -22,9 +22,19 @@
 
 #include "galois/config.h"
 
+#ifdef GALOIS_VERIF
+// verification hook (off unless GALOIS_VERIF is defined): every spin-wait
+// iteration is reported to the schedule controller if one is linked in
+extern "C" void galois_verif_spin() __attribute__((weak));
+#endif
+
 namespace galois::substrate {
 
 inline static void asmPause() {
+#ifdef GALOIS_VERIF
+  if (galois_verif_spin)
+    galois_verif_spin();
+#endif
 #if defined(__i386__) || defined(__amd64__)
   //  __builtin_ia32_pause();
   asm volatile("pause");
